@@ -1224,6 +1224,11 @@ class Columns(Widget, WidgetContainerMixin, WidgetContainerListContentsMixin):
         if self._command_map[key] not in {Command.LEFT, Command.RIGHT}:
             return key
 
+        # the focus widget's keypress may have changed the contents or the focus
+        if not self.contents:
+            return key
+        i = self.focus_position
+
         if self._command_map[key] == Command.LEFT:
             candidates = list(range(i - 1, -1, -1))  # count backwards to 0
         else:  # key == 'right'
